@@ -115,6 +115,18 @@ pub fn project(dict: &Dictionary) -> Value {
     json!({"lex": words(0), "user": words(1), "unk": unk, "nr": nr, "nl": nl, "mat": mat})
 }
 
+/// The characters whose category information every projection reports (BMP only: astral
+/// characters are the subject of known finding F19).  The same list is `ProbeChars` in VDictOps.
+pub const PROBE_CHARS: &[u32] = &[0x0, 0x1F, 0x20, 0x61, 0x62, 0x63, 0x64, 0x7A, 0xE9, 0x3000, 0x3042, 0x4EAC, 0x4EAD, 0x6771, 0xFFDF, 0xFFF0, 0xFFFE, 0xFFFF];
+
+pub fn project_chars(dict: &Dictionary) -> Value {
+    Value::Array(PROBE_CHARS.iter().map(|&cp| {
+        let (mask, base, invoke, group, length) = dict.verif_char_info(char::from_u32(cp).unwrap());
+        let cats: Vec<u32> = (0..32).filter(|b| mask & (1u32 << b) != 0).collect();
+        json!({"ch": cp, "cats": cats, "base": base, "invoke": invoke as u8, "group": group as u8, "length": length})
+    }).collect())
+}
+
 struct CountingWriter {
     buf: Vec<u8>,
 }
@@ -251,7 +263,7 @@ pub fn run_dict_session(ds: &DictSession, out: &mut Vec<Value>) {
         };
         let isp_ok = !ds.isp || ds.d.space_cat() >= 0;
         log.push(json!({"ev": "session", "D": d0.to_json(), "O": {"isp": ds.isp && isp_ok, "mgl": ds.mgl}, "nw": 1}));
-        log.push(json!({"ev": "proj", "p": project(&dict)}));
+        log.push(json!({"ev": "proj", "p": project(&dict), "chars": project_chars(&dict)}));
         let mut oks: Vec<bool> = vec![];
         let mut prev = probe(materialize(&d0, &ds.steps[..0], &oks), ds, &mut log);
         let mut steps: Vec<DStep> = ds.steps.clone();
@@ -273,7 +285,7 @@ pub fn run_dict_session(ds: &DictSession, out: &mut Vec<Value>) {
                     dict = materialize(&d0, &steps[..=i], &oks);
                 }
             }
-            log.push(json!({"ev": "proj", "p": project(&dict)}));
+            log.push(json!({"ev": "proj", "p": project(&dict), "chars": project_chars(&dict)}));
             let cur = probe(materialize(&d0, &steps[..=i], &oks), ds, &mut log);
             if let (DStep::Map { ll, rl }, true) = (step, oks[i]) {
                 for (k, s) in ds.probes.iter().enumerate() {
@@ -313,7 +325,7 @@ pub fn run_loaded_session(ds: &DictSession, image: &[u8], hash: u32, out: &mut V
         log.push(json!({"ev": "session", "D": d0.to_json(), "O": {"isp": false, "mgl": ds.mgl}, "nw": 1}));
         let (ret, bytes) = write_bytes(&dict);
         log.push(json!({"ev": "wr", "ret": ret, "emitted": bytes.len(), "h1": hash, "h2": fnv31(&bytes), "len2": image.len(), "ok": true}));
-        log.push(json!({"ev": "proj", "p": project(&dict)}));
+        log.push(json!({"ev": "proj", "p": project(&dict), "chars": project_chars(&dict)}));
         let mut oks: Vec<bool> = vec![];
         probe(load().unwrap(), ds, &mut log);
         for (i, step) in ds.steps.iter().enumerate() {
@@ -327,7 +339,7 @@ pub fn run_loaded_session(ds: &DictSession, image: &[u8], hash: u32, out: &mut V
                     dict = materialize_from(load().unwrap(), &ds.steps[..=i], &oks);
                 }
             }
-            log.push(json!({"ev": "proj", "p": project(&dict)}));
+            log.push(json!({"ev": "proj", "p": project(&dict), "chars": project_chars(&dict)}));
             probe(materialize_from(load().unwrap(), &ds.steps[..=i], &oks), ds, &mut log);
         }
         log
